@@ -172,6 +172,20 @@ class Model:
     def vjp_metric_chol(self, q):
         return self._vjp_of(self.metric_chol, q)
 
+    # a triangular factor function whose last diagonal entry is NEGATIVE at every position: L L^T is positive definite for any non-singular L and the
+    # factored matrix classes accept it (log_abs_det takes absolute values of the diagonal)
+    def metric_chol_neg(self, q):
+        L = self.metric_chol(q).copy()
+        L[-1, -1] = -1 * L[-1, -1]
+        return L
+
+    def vjp_metric_chol_neg(self, q):
+        return self._vjp_of(self.metric_chol_neg, q)
+
+    def metric_dense_neg(self, q):
+        L = self.metric_chol_neg(q)
+        return L @ L.T
+
     def metric_dense(self, q):
         L = self.metric_chol(q)
         return L @ L.T
@@ -329,6 +343,9 @@ def c05_cases(S, M, ST, O, which):
             model.neg_log_dens, lambda prm: M.PositiveDefiniteBlockDiagonalMatrix((M.PositiveScaledIdentityMatrix(prm[0], 1), M.PositiveDiagonalMatrix(prm[1]))),
             model.metric_blocks, vjp_metric_func=model.vjp_metric_blocks, grad_neg_log_dens=model.grad_neg_log_dens),
             lambda q: np.diag(np.array([model.metric_scalar(q), model.metric_diag(q)[0]], dtype=object))))
+        riem.append(("cholesky, last diagonal entry of the factor function negative", lambda: S.CholeskyFactoredRiemannianMetricSystem(
+            model.neg_log_dens, model.metric_chol_neg, vjp_metric_chol_func=model.vjp_metric_chol_neg, grad_neg_log_dens=model.grad_neg_log_dens),
+            lambda q: model.metric_dense_neg(q)))
         for label, mk, view in riem:
             if k == which:
                 c05_case(S, M, ST, f"{label}; aux={aux}", mk(), view, O)
